@@ -2,6 +2,7 @@ package c02
 
 import (
 	"testing"
+	"time"
 
 	"github.com/pion/turn/v5/verif/checks/prof"
 	"github.com/pion/turn/v5/verif/rep"
@@ -19,4 +20,32 @@ func TestC02BFS(t *testing.T) {
 	r := rep.New("C02")
 	defer r.Write()
 	vtx.ExploreBFS(t, prof.Relay("c02-bfs", map[string]bool{"leak-p2c": true}), r, 7)
+}
+
+// TestC02Lookalikes: "a channel binding for the sender's exact transport address": peers whose addresses are
+// easily confused when an implementation keys on text - X25 = 10.1.0.2:25000 and Y22 = 10.1.0.22:5000 (their IP
+// and port run together to the same string), B = 10.1.0.2:5000 (X25's host, Y22's port). Permissions and channels
+// for any of them, datagrams from all of them after every step.
+func TestC02Lookalikes(t *testing.T) {
+	r := rep.New("C02")
+	defer r.Write()
+	depth := 3
+	if rep.Thorough() {
+		depth = 4
+	}
+	peers := []string{"X25", "Y22", "B"}
+	p := &vtx.Profile{
+		Name: "c02-lookalike-addresses", Configs: []vtx.Config{{}}, Clients: []string{"c1"}, Peers: peers, Chans: []uint16{prof.N1, prof.N2},
+		Depth: depth, Drain: true, Tags: map[string]bool{"leak-p2c": true, "miss-p2c": true},
+		Setup: func(vtx.Config) []vtx.Event { return []vtx.Event{prof.E("alloc", "c1", 0)} },
+		Menu: func(m *vtx.Model, now time.Time, _ int) []vtx.Event {
+			var e []vtx.Event
+			for _, pn := range peers {
+				e = append(e, prof.E("perm", "c1", 0, pn), prof.E("chan", "c1", prof.N1, pn), prof.E("chan", "c1", prof.N2, pn))
+			}
+
+			return append(e, vtx.AdvanceMenu(m, now, []time.Duration{time.Nanosecond}, nil)...)
+		},
+	}
+	vtx.Explore(t, p, r)
 }
